@@ -1,46 +1,20 @@
 import JadeModel.Proofs.SystemCap
+import JadeModel.Proofs.SystemRoleStep
+import JadeModel.Proofs.SystemGateDefs
+import JadeModel.Proofs.SystemGateStepA
+import JadeModel.Proofs.SystemGateStepB
+import JadeModel.Proofs.SystemGateStepC
 
 set_option linter.unusedSimpArgs false
 
-/-! Cancel is final (C14); completion happens once, after the summary, and ends submission (C05 safety). -/
-
 namespace Jade.Sys
 
-/-- the phases of a round in which the process may still collect, submit or summarize -/
-def inRound : SPc → Bool
-  | .loaded => true
-  | .collecting => true
-  | .ready => true
-  | .marked => true
-  | .persisted => true
-  | .summarized => true
-  | _ => false
-
-structure GateInv (s : Sys) : Prop where
-  role : RoleInv s
-  /-- the holder's copy of the two flags is the disk's -/
-  flags : ∀ q a y, s.procs q = .sub a y → holds y.pc = true →
-    y.loc.complete = s.disk.complete ∧ y.loc.canceled = s.disk.canceled
-  /-- a holder that saw the submission complete never enters a round -/
-  completeOut : ∀ q a y, s.procs q = .sub a y → holds y.pc = true → y.loc.complete = true →
-    (y.pc = .summarized → False) ∧ inRound y.pc = false ∧ (y.pc = .unmarked → y.decided = false)
-  /-- cancel-jobs never submits or summarizes -/
-  cancelOut : ∀ q a y, s.procs q = .sub a y → y.isCancel = true →
-    y.pc ≠ .marked ∧ y.pc ≠ .collecting ∧ y.pc ≠ .ready ∧ y.pc ≠ .persisted ∧ y.pc ≠ .summarized ∧
-    (y.pc = .unmarked → y.decided = false)
-  late : s.lateSbatch = false
-  once : s.completions = (if s.disk.complete then 1 else 0)
-
-theorem gateInv_init (sc : Scn) : GateInv (init sc) := by
-  refine ⟨roleInv_init sc, ?_, ?_, ?_, ?_, ?_⟩ <;> simp [init]
-
-set_option maxHeartbeats 16000000 in
 theorem gateInv_step {s s' : Sys} {op : Op} (hi : GateInv s) (h : step s op = some s') : GateInv s' := by
   have hr := roleInv_step hi.role h
-  obtain ⟨⟨h1, h2, h3, h4, h5⟩, g1, g2, g3, g4, g5⟩ := hi
-  cases op <;> step_cases h <;>
-    (refine ⟨hr, ?_, ?_, ?_, ?_, ?_⟩ <;> frame_all <;>
-      grind [holds, inRound, SubP.load, persistStatus])
+  obtain ⟨c_flags, c_once⟩ := gateInv_step_a hr hi h
+  obtain ⟨c_completeOut, c_late⟩ := gateInv_step_b hr hi h
+  have c_cancelOut := gateInv_step_c hr hi h
+  exact ⟨hr, c_flags, c_completeOut, c_cancelOut, c_late, c_once⟩
 
 theorem gateInv_run {s s' : Sys} (ops : List Op) (hi : GateInv s) (h : run s ops = some s') : GateInv s' := by
   induction ops generalizing s with
